@@ -131,3 +131,23 @@ def _c12_both_open(v):
     m = v["mech"]
     return v["oracle"] == "approved-edit-failed" and m.get("helper") == "drop_point" and m.get("slice_node_open_both_sides_non_prefix") is True \
         and m.get("exc") == "ValueError" and str(m.get("msg", "")).startswith("Called contentMatchAt")
+
+
+@predicate("C11-positional-schema-frontier-from-start")
+def _c11_positional(v):
+    m = v["mech"]
+    return v["oracle"] == "raised" and m.get("flexible") is False and m.get("exc") == "ValueError" \
+        and str(m.get("msg", "")).startswith("Called contentMatchAt")
+
+
+@predicate("C11-positional-schema-cannot-join")
+def _c11_cannot_join(v):
+    m = v["mech"]
+    return v["oracle"] == "raised" and m.get("schema") == "structure" and m.get("exc") == "TransformError" and m.get("msg") == "Cannot join"
+
+
+@predicate("C11-positional-schema-null-frontier-match")
+def _c11_null_match(v):
+    m = v["mech"]
+    return v["oracle"] == "raised" and m.get("schema") == "structure" and m.get("exc") == "AttributeError" \
+        and "NoneType" in str(m.get("msg", ""))
